@@ -88,7 +88,7 @@ def drain(s, a=1, b=2, rounds=8, update=False, wrapper=False):
 
 
 def data_session(seed, n_steps=120, faults=True, with_close=False, with_partial=True, with_invalid=False, updates=False, p_rel=0.6,
-                 magic=None, window_respect=True, big_groups=False):
+                 magic=None, window_respect=True, big_groups=False, tiny=False):
     rng = random.Random(seed)
     s = Session(rng)
     s.op("reset")
@@ -104,7 +104,7 @@ def data_session(seed, n_steps=120, faults=True, with_close=False, with_partial=
     s.op("seqinit 1 %d %d" % (b_out, a_out))
     s.op("seqinit 2 %d %d" % (a_out, b_out))
     s.note("peers 1 2")
-    p_drop = rng.choice([0, 0.05, 0.15, 0.3]) if faults else 0
+    p_drop = (rng.choice([0, 0.05, 0.15, 0.3]) if not tiny else rng.choice([0.3, 0.45])) if faults else 0
     p_dup = rng.choice([0, 0.05, 0.15]) if faults else 0
     p_reo = rng.choice([0, 0.1, 0.25]) if faults else 0
     # channels: opened lazily by the first (open) bunch
@@ -190,7 +190,7 @@ def data_session(seed, n_steps=120, faults=True, with_close=False, with_partial=
                     flags |= FLAG["close"] | FLAG["rel"]
                     reason = rng.choice(list(range(15)))
                     closed[side].add(ch)
-                bits = payload_bits(rng)
+                bits = payload_bits(rng) if not tiny else rng.choice([0, 1, 1, 1, 2, 3, 7, 8, 9, 15, 16, 17])
                 s.op("send %d %d %d %d %d %d %d" % (side, ch, flags, reason, name, bits, s.next_pseed()))
                 budget["pk"] += 1
                 if flags & FLAG["rel"]:
@@ -242,6 +242,8 @@ def data_session(seed, n_steps=120, faults=True, with_close=False, with_partial=
     drain(s, 1, 2, rounds=10, update=updates or with_close)
     s.note("drained")
     s.op("nodes")
+    s.op("closed 1")
+    s.op("closed 2")
     if rng.random() < 0.3:
         s.op("uninit %d" % rng.choice([1, 2]))
     return s.ops
@@ -293,6 +295,8 @@ def window_session(seed):
     drain(s, 1, 2, rounds=12)
     s.note("drained")
     s.op("nodes")
+    s.op("closed 1")
+    s.op("closed 2")
     return s.ops
 
 
@@ -510,8 +514,12 @@ def listener_session(seed):
         s.op("cfg magic %d %d" % magic)
     if rng.random() < 0.4:
         s.op("tick %d" % (rng.randint(0, 7200) * 1000000000 + rng.randint(0, 999999999)))
-    s.op("seed %d %d" % (rng.randint(1, 1 << 30), rng.randint(1, 1 << 30)))
+    sa, sb = rng.randint(1, 1 << 30), rng.randint(1, 1 << 30)
+    s.op("seed %d %d" % (sa, sb))
     s.op("listener 10")
+    # a twin that starts with the same secrets and sees the same rotations, but none of the traffic
+    s.op("seed %d %d" % (sa, sb))
+    s.op("listener 11")
     nclients = rng.randint(1, 4)
     cid = 100
     for k in range(nclients):
@@ -538,9 +546,15 @@ def listener_session(seed):
                 s.op("tick %d" % ((p - t) * 1000000))
                 t = p
             if special:
-                s.op("rot 10 %s" % bytes(rng.getrandbits(8) for _ in range(64)).hex())
+                hx = bytes(rng.getrandbits(8) for _ in range(64)).hex()
+                s.op("rot 10 %s" % hx)
+                s.op("rot 11 %s" % hx)
             else:
+                ra, rb = rng.randint(1, 1 << 30), rng.randint(1, 1 << 30)
+                s.op("seed %d %d" % (ra, rb))
                 s.op("rot 10")
+                s.op("seed %d %d" % (ra, rb))
+                s.op("rot 11")
         if delay_ms > t:
             s.op("tick %d" % ((delay_ms - t) * 1000000))
         # corrupted / foreign attempts first: never accepted
@@ -595,6 +609,17 @@ def listener_session(seed):
                 s.op("lcraft 10 %s %d 0 -1 %d %d %d -1 -1 -1 %d" % (addr, c, rng.choice([0, 1, 2, 3, 4, 5, 6, 255]), rng.choice([0, 1, 2, 3, 4, 200]), rng.randint(0, 255), rng.randint(0, 31)))
         s.note("hostile")
         hostile_ops(s, rng, [c], [c, 10], listener=(10, addr), n=rng.randint(0, 3))
+        # the twin is asked the same question with the same clock and random state: the answers must be identical
+        for _ in range(rng.randint(1, 3)):
+            pa, pb = rng.randint(1, 1 << 30), rng.randint(1, 1 << 30)
+            which = rng.choice([-1, 0, -2])
+            who = rng.choice([addr, addr, "7.7.7.7:7"])
+            s.op("seed %d %d" % (pa, pb))
+            s.note("twin-a")
+            s.op("ldlv 10 %s %d %d" % (who, c, which))
+            s.op("seed %d %d" % (pa, pb))
+            s.note("twin-b")
+            s.op("ldlv 11 %s %d %d" % (who, c, which))
     return s.ops
 
 
